@@ -27,7 +27,7 @@ Import ListNotations.
 Open Scope N_scope.
 
 (* one-line switch: flip to [true] when set_mates is repaired in /repo *)
-Definition mates_repaired : bool := false.
+Definition mates_repaired : bool := true.
 
 (* ---------------------------------------------------------------- records *)
 Record mrec := mk_mrec {
